@@ -6,7 +6,7 @@
    Poison::Poisoned; inner nodes either collect the errors of all children
    (Vec, tuples) or stop at the first failing child (`?` chains). *)
 From PV Require Import Base.Common.
-From PV Require Model.TypeLegal Model.Autoderef Proofs.AutoderefProofs.
+From PV Require Model.TypeLegal Model.Autoderef Proofs.AutoderefProofs Model.AssignSteps Proofs.AssignStepsProofs.
 
 Inductive tree :=
 | TOk
@@ -179,6 +179,21 @@ Theorem C02_argument_coercions_are_implemented : forall env b vt0 pt c,
   AutoderefProofs.arm_simple (Autoderef.autocoerce_arm (Autoderef.EDeref b (Autoderef.resolve_vt env vt0)) (Autoderef.resolve_vt env c)) = true.
 Proof. exact AutoderefProofs.argument_coercion_of_deref_implemented. Qed.
 
+(* The assignment side (analyze_assignment_steps, Model/AssignSteps.v) under the same hypothesis `fits`: it panics
+   EXACTLY when an element step meets more than MAX_ADDRESS_DEPTH (127) pointer/view layers - the read side strips
+   128 (listed finding D86: `fn f(x: &^128 [4]i32) { x[0] = 1; }`) - and never on a member. *)
+Theorem C02_assignment_steps_panic_only_beyond_127_pointers : forall mt known steps ad s,
+  Autoderef.fits mt known steps = true ->
+  (AssignSteps.assignment_steps mt known steps ad = AssignSteps.APanic s <->
+   s = 1%N /\ AssignSteps.element_run_too_long mt AssignSteps.max_address_depth_nat known steps = true).
+Proof. exact AssignStepsProofs.assignment_steps_panic_iff. Qed.
+
+Theorem C02_assignment_steps_never_panic_within_limits : forall mt known steps ad,
+  Autoderef.fits mt known steps = true ->
+  AssignStepsProofs.types_within_assign mt known ->
+  exists taken rd, AssignSteps.assignment_steps mt known steps ad = AssignSteps.AOk taken rd.
+Proof. exact AssignStepsProofs.assignment_steps_never_panics. Qed.
+
 Print Assumptions C02_resolve_ok_iff.
 Print Assumptions C02_silent_failure_needs_poison.
 Print Assumptions C02_errors_reported_when_collected.
@@ -188,3 +203,5 @@ Print Assumptions C02_D11_is_a_slice_pointer.
 Print Assumptions C02_D11_witness.
 Print Assumptions C02_autoderef_coercions_are_implemented.
 Print Assumptions C02_argument_coercions_are_implemented.
+Print Assumptions C02_assignment_steps_panic_only_beyond_127_pointers.
+Print Assumptions C02_assignment_steps_never_panic_within_limits.
